@@ -15,6 +15,9 @@ import (
 	"sync"
 	"time"
 
+	"github.com/6tail/lunar-go/HolidayUtil"
+	"github.com/6tail/lunar-go/LunarUtil"
+	"github.com/6tail/lunar-go/SolarUtil"
 	"github.com/6tail/lunar-go/calendar"
 )
 
@@ -453,6 +456,76 @@ func c09Stress(c *ctx) {
 			}
 		}
 	}
+	// value calls on SEPARATE objects and package-level helpers, goroutines released together: each call's result
+	// against the single-goroutine reference taken first (shared scratch buffers, unsynchronised memos)
+	valueBad, valueWit := 0, ""
+	vcall := func(i, a int) (out string) {
+		try(func() {
+			y := 1990 + a%60
+			switch i % 9 {
+			case 0:
+				s1, _ := safeSolar(y+100, 10, 1, 0, 0, 0)
+				s2, _ := safeSolar(y, 10, 1, 0, 0, 0)
+				out = fmt.Sprint(s1.Subtract(s2), s2.SubtractMinute(s1), s1.IsAfter(s2))
+			case 1:
+				s, _ := safeSolar(y, 1+a%12, 1+a%28, 12, 0, 0)
+				out = callRender(s.GetFestivals()) + callRender(s.GetOtherFestivals()) + fmt.Sprint(s.GetWeek(), s.GetXingZuo())
+			case 2:
+				s, _ := safeSolar(y, 1+a%12, 1+a%28, a%24, 30, 0)
+				out = s.GetLunar().ToFullString()
+			case 3:
+				s, _ := safeSolar(y, 1+a%12, 1+a%28, 9, 0, 0)
+				out = s.ToFullString() + s.ToYmdHms() + s.GetLunar().GetTao().String() + s.GetLunar().GetFoto().ToFullString()
+			case 4:
+				gz := LunarUtil.JIA_ZI[a%60]
+				out = fmt.Sprint(LunarUtil.GetJiaZiIndex(gz)) + callRender(LunarUtil.GetDayJiShen(1+a%12, gz)) + callRender(LunarUtil.GetDayYi(LunarUtil.JIA_ZI[(a*7)%60], gz))
+			case 5:
+				out = callRender(HolidayUtil.GetHolidaysByYm(2001+a%24, 1+a%12)) + callRender(HolidayUtil.GetHolidaysByTarget(fmt.Sprintf("%d-10-01", 2001+a%24)))
+			case 6:
+				s, _ := safeSolar(2001+a%24, 1+a%12, 1+a%28, 0, 0, 0)
+				out = s.Next(a%9-4, true).ToYmd() + fmt.Sprint(s.GetSalaryRate())
+			case 7:
+				out = fmt.Sprint(SolarUtil.GetWeeksOfMonth(y, 1+a%12, a%7), SolarUtil.GetDaysOfYear(y), SolarUtil.GetDaysInYear(y, 1+a%12, 1+a%28)) +
+					calendar.NewSolarWeekFromYmd(y, 1+a%12, 1+a%28, a%7).String()
+			default:
+				s, _ := safeSolar(y, 1+a%12, 1+a%28, a%24, 0, 0)
+				ec := s.GetLunar().GetEightChar()
+				out = ec.String() + ec.GetYun(a%2).GetStartSolar().ToYmd()
+			}
+		})
+		return
+	}
+	vref := map[[2]int]string{}
+	for i := 0; i < 9; i++ {
+		for a := 0; a < 64; a++ {
+			vref[[2]int{i, a}] = vcall(i, a)
+		}
+	}
+	for r := 0; r < rounds && blocked == 0; r++ {
+		start := make(chan bool)
+		var wg3 sync.WaitGroup
+		var vmu sync.Mutex
+		for g := 0; g < 8; g++ {
+			wg3.Add(1)
+			go func(g int) {
+				defer wg3.Done()
+				<-start
+				for j := 0; j < 9; j++ {
+					i, a := (j+g)%9, (r*8+g*5+j)%64
+					if got := vcall(i, a); got != vref[[2]int{i, a}] {
+						vmu.Lock()
+						valueBad++
+						if valueWit == "" {
+							valueWit = fmt.Sprintf("call %d arg %d", i, a)
+						}
+						vmu.Unlock()
+					}
+				}
+			}(g)
+		}
+		close(start)
+		wg3.Wait()
+	}
 	calls := [][]interface{}{}
 	if blocked == 0 {
 		for g := range results {
@@ -473,7 +546,7 @@ func c09Stress(c *ctx) {
 		lf = b2i(calendar.VerifLockFree())
 	}
 	c.emit(obj{"ev": "C09Stress", "cache0": cy, "events": evs, "calls": calls, "blocked": blocked, "lockfree": lf, "truncated": b2i(len(evs) >= maxEv),
-		"rounds": rounds, "sharedDiffer": sharedBad})
+		"rounds": rounds, "sharedDiffer": sharedBad, "valueDiffer": valueBad, "valueWit": valueWit})
 	// race reports written by the race runtime (GORACE=log_path=...)
 	if lp := os.Getenv("VERIF_RACE_LOG"); lp != "" {
 		time.Sleep(200 * time.Millisecond)
